@@ -113,6 +113,10 @@ structure ClausesNames (cs : Fun.Clauses) (st : CompileState) : Prop where
 def CompiledCl (q : Core.Prog) (n : Nat) (cs : Fun.Clauses) (c : Core.Term) (cs' : Core.Clauses) : Prop :=
   ∃ st st', compileClauses cs c st = .ok (cs', st') ∧ StOK q st' ∧ ClausesNames cs st ∧ ConsNames c st n
 
+/-- `cs' = ` the clauses of a `new` -/
+def CompiledCo (q : Core.Prog) (cs : Fun.Clauses) (cs' : Core.Clauses) : Prop :=
+  ∃ st st', compileCoclauses cs st = .ok (cs', st') ∧ StOK q st' ∧ ClausesNames cs st
+
 /-- a consumer whose cut is not split by the ς-machine -/
 def Inert : Core.Term → Prop
   | .xtor .. => False
@@ -129,6 +133,13 @@ mutual
     | con {n : Nat} {K : String} {vs : List Fun.Value} {Vs : List CVal} :
         VRelL n vs Vs → VRel n (.con K vs) (.con ⟨K, 0⟩ Vs)
     | cont {n : Nat} {k : Fun.Stack} {cv : CVal} : KRel n k cv → VRel n (.cont k) cv
+    /-- the closure of `new { … }` -/
+    | obj {n : Nat} {cs : Fun.Clauses} {envc : Fun.Env} {ρ0 ρ : CEnv} {cs' : Core.Clauses} :
+        (∀ K cl, Fun.findClause K cs = some cl →
+          G cl.body ∧ cl.names.Nodup ∧ cl.ctx.map (·.var) = cl.names) →
+        CompiledCo q cs cs' → EnvRel n (fvClauses cs) envc ρ0 →
+        BoundOn (tfvClauses cs' []) ρ0 → AgreeOn (tfvClauses cs' []) ρ0 ρ →
+        VRel n (.obj cs envc) (.cocase ρ cs')
   inductive VRelL : Nat → List Fun.Value → List CVal → Prop
     | nil (n : Nat) : VRelL n [] []
     | cons {n : Nat} {v V vs Vs} : VRel n v V → VRelL n vs Vs → VRelL n (v :: vs) (V :: Vs)
@@ -140,7 +151,8 @@ mutual
         (∀ y, y ∈ xs → VRel n (f y) (g y)) → EnvRel n xs env ρ
   inductive CRel : Nat → Fun.Stack → Core.Term → CEnv → Prop
     | mk {n : Nat} {k : Fun.Stack} {c : Core.Term} {ρ : CEnv} {cv : CVal} :
-        Core.cnsVal ρ c = .ok cv → KRel n k cv → Inert c → BoundOn (tfvTerm c []) ρ → CRel n k c ρ
+        Core.cnsVal ρ c = .ok cv → KRel n k cv → Inert c → BoundOn (tfvTerm c []) ρ →
+        Core.isCodata q.codataTypes (coreGetType c) = false → CRel n k c ρ
   inductive KRel : Nat → Fun.Stack → CVal → Prop
     /-- the top-level continuation of `main`: `μ~x. exit x` -/
     | main {n : Nat} {ρ : CEnv} {x : Core.Ident} {ty ty' : Core.Ty} :
@@ -229,6 +241,7 @@ mutual
     | eta {n : Nat} {k : Fun.Stack} {ρ0 ρ : CEnv} {x : Core.Ident} {ty ty' : Core.Ty}
         {c : Core.Term} :
         CRel n k c ρ0 → (∀ b ∈ tfvTerm c [], b.var ≠ x) →
+        Core.isCodata q.codataTypes ty = false →
         BoundOn ((tfvStmt (.cut ty (.var .prd x ty') c) []).filter (·.var ≠ x)) ρ0 →
         AgreeOn ((tfvStmt (.cut ty (.var .prd x ty') c) []).filter (·.var ≠ x)) ρ0 ρ →
         KRel n k (.mutilde ρ x (.cut ty (.var .prd x ty') c))
